@@ -36,7 +36,7 @@ def gates(c, tier):
             if c.get(f"cell:{k}:{ic}", 0) == 0:
                 out.append(f"no {k} with id class {ic}")
     for k in ("search-with>=3-results-before-done", "duplicate-final-response", "request-type-delivered", "batched-delivery", "chunked-delivery",
-              "accepted-response", "rejected-response", "ids-checked", "response-with-paged-control", "long-lived-client", "many-outstanding-operations", "negative-id-aliasing-an-operation-in-progress"):
+              "accepted-response", "rejected-response", "ids-checked", "response-with-paged-control", "long-lived-client", "many-outstanding-operations", "negative-id-aliasing-an-operation-in-progress", "entries-beyond-the-requested-size-limit"):
         if c.get(k, 0) == 0:
             out.append(f"never observed {k}")
     return out[:12]
@@ -118,6 +118,22 @@ def many_outstanding(seed, n_ops, order):
     return steps
 
 
+def beyond_size_limit(seed, limit, extra):
+    """A search with sizeLimit=limit for which the server streams limit+extra entries (and references) before done: the
+    limit is a request to the server, the client correlates by id only."""
+    import random
+
+    r = random.Random(seed)
+    steps = [("search", "dc=x", 2, 0, limit, 0, False, None, None, None), ("search", "dc=y", 1, 0, 0, 7, False, None, None, None)]
+    for j in range(limit + extra):
+        steps.append(("receive", rfc4511.encode(("SearchResultEntry", 1, ("cn=e%d" % j, ()), ()))))
+        if j % 3 == 1:
+            steps.append(("receive", rfc4511.encode(("SearchResultReference" if j % 2 else "SearchResultEntry", r.choice([1, 2]), (("ldap://r/",),) if j % 2 else ("cn=o", ()), ()))))
+    steps.append(("receive", rfc4511.encode(("SearchResultDone", 1, ((4, "", "", None),), ()))))
+    steps.append(("receive", rfc4511.encode(("SearchResultDone", 2, ((0, "", "", None),), ()))))
+    return steps
+
+
 def negative_alias(seed, n_ops, alias_of):
     """n_ops operations in progress (ids 1..n_ops); then a response whose messageID is alias_of - 2^8 / - 2^16 (the same
     low octets as an id in progress, but a negative INTEGER): an id that is not in progress."""
@@ -133,6 +149,17 @@ def negative_alias(seed, n_ops, alias_of):
 
 
 def run_shard(ctx: Ctx, acc: Acc):
+    for ci, (limit, extra) in enumerate([(1, 1), (1, 5), (2, 1), (5, 3), (10, 1), (100, 30), (1000, 2)]):
+        if ci % ctx.nshards != ctx.shard:
+            continue
+        acc.case()
+        acc.count("entries-beyond-the-requested-size-limit")
+        acc.nontrivial("beyond", limit, extra)
+        vio, drv = run_steps(beyond_size_limit(ctx.seed + ci, limit, extra))
+        if not vio and drv.sess.state.name == "CLOSED":
+            vio = [("closed-by-entries-beyond-size-limit", "client CLOSED")]
+        for key, what in vio:
+            acc.violation(key, what + f" [search with size_limit={limit}, server sent {limit + extra} entries]", {"beyond": [ctx.seed + ci, limit, extra]})
     for ci, alias_of in enumerate([128, 129, 200, 254, 255, 256, 300]):
         if ci % ctx.nshards != ctx.shard:
             continue
@@ -287,6 +314,8 @@ def run_shard(ctx: Ctx, acc: Acc):
 def replay(w):
     if w.get("many"):
         return run_steps(many_outstanding(*w["many"]))[0]
+    if w.get("beyond"):
+        return run_steps(beyond_size_limit(*w["beyond"]))[0]
     if w.get("alias"):
         return run_steps(negative_alias(*w["alias"]))[0]
     vio, drv = run_steps([to_tuple(a) for a in w["steps"]])
